@@ -215,7 +215,7 @@ def accounting(chk, repo, rule):
            "that holds this datagram's data, its working counter follows")
     # the guards
     raises = [n for n in cfg.nodes if n.kind == "raise"]
-    chk.floor(rule, "rejections in append", len(raises), 2)
+    chk.floor(rule, "rejections in append", len(raises), 1)
     size_guard = False
     count_guard = False
     for r in raises:
